@@ -73,10 +73,35 @@ def _fields_in(lv, sf):
     return out
 
 
-def cond_reads(b, sf):
+def _is_loop_next(b, t):
+    """The switch tests the Option returned by Iterator::next (the header of a `for` loop)."""
+    p = operand_place(t["d"])
+    cur = p
+    for _ in range(4):
+        if cur is None:
+            return False
+        ds = b.defs_of(cur["l"])
+        if len(ds) != 1:
+            return False
+        bb, idx, r = ds[0]
+        if idx == "term":
+            return bool(r.get("f")) and r["f"]["name"] == "next"
+        if r["k"] == "discr":
+            cur = r["p"]
+            continue
+        if r["k"] == "use":
+            cur = operand_place(r["o"])
+            continue
+        return False
+    return False
+
+
+def cond_reads(b, sf, skip_loop_headers=False):
     out = set()
     for i, t in b.terms("switch"):
         if _noise(t):
+            continue
+        if skip_loop_headers and _is_loop_next(b, t):
             continue
         out |= _fields_in(q.leaves(b, t["d"], adt=True), sf)
     return out
@@ -159,6 +184,16 @@ def all_signatures(crate):
             continue
         cr, wr = signature(crate, k, sf)
         out[k] = {"cond_reads": sorted(cr), "writes": sorted(wr)}
+    return out
+
+
+def _returned_fields(crate, key, sf):
+    """State fields in the data slice of what a (read-only) function returns or branches on."""
+    out = set()
+    for b in crate.bodies:
+        if b.key == key and b.kind in ("Fn", "AssocFn"):
+            out |= _fields_in(q.leaves(b, {"k": "copy", "p": {"l": 0}}, adt=True), sf)
+            out |= cond_reads(b, sf)
     return out
 
 
@@ -265,6 +300,24 @@ def check(ctx, crate, rule, prefixes, tag=""):
             ok_c |= set(tb[g]["cond_reads"])
             ok_w |= set(tb[g]["writes"])
         new_c, new_w = sorted(cr - ok_c), sorted(wr - ok_w)
+        if new_c:
+            # a branch that used to ask a reviewed observer of this crate (`self.level(v) <= level`) may ask what the observer
+            # reads directly (`self.map.level(v) > level`): inlining an accessor by hand adds no dependency that was not there
+            via = set()
+            for g, cs_ in callers.items():
+                if k in cs_ and g in tb and not tb[g]["writes"]:
+                    via |= _returned_fields(crate, g, sf)
+            new_c = [x for x in new_c if x not in via]
+        if new_c:
+            # walking (`for slot in self.x.iter_mut()`) over a field the function is reviewed to write is not a new dependency of its
+            # decisions: only the loop header looks at it
+            wbase = {w.split("<-")[0] for w in ok_w}
+            strict = set()
+            for b2 in crate.bodies:
+                if b2.key == k or (b2.root and strip_generics(b2.root) == k and b2.kind == "Closure"):
+                    if b2.kind in ("Fn", "AssocFn", "Closure"):
+                        strict |= cond_reads(b2, sf, skip_loop_headers=True)
+            new_c = [x for x in new_c if not (x in wbase and x not in strict)]
         if new_c and not wr:
             # a read-only observer (`&self`, modifies nothing) may consult another field of its *own* structure: that cannot
             # skip or redirect any work of the solver, it only changes how the observer computes its answer
